@@ -15,7 +15,8 @@
   * block layer, for the grammar fragment of Spec/BlockGrammar.lean (symbol identifier with
     annotations, parameters with annotations and one-line descriptions, one description paragraph,
     `Returns:`): every layout parses to exactly the block with no diagnostic (C10_parse_render_partial),
-    all layouts agree (C10_layout_indep_partial), and writing the parsed block with the project's
+    all layouts agree (C10_layout_indep_partial) — a layout fixes the indentation in front of the
+    asterisk of every line separately, so ragged and staircase layouts are covered —, and writing the parsed block with the project's
     writer and parsing that again gives the same block (C10_write_parse_partial).
   What the fragment excludes is listed in Spec/BlockGrammar.lean.  The three classes for which the
   last sentence of the property used to be false (empty option values `key=`, action identifiers,
@@ -175,21 +176,24 @@ theorem C10_indent_lines (ws line : Str) (h : ∀ c ∈ ws, isSpace c = true) :
 
 /-! ### block level, for the grammar fragment of Spec/BlockGrammar.lean -/
 
-/-- parse ∘ render: every layout (white space before the tokens and asterisks, the white-space
-    character after the asterisk, LF / CR / CRLF) of the writer's lines for a block model of the
-    fragment parses — with no diagnostic at all — to exactly the block the property demands:
-    identifier, annotations with their options, every parameter with annotations and description,
-    the description, the `Returns:` tag, all with their source lines. -/
+/-- parse ∘ render: every layout of the writer's lines for a block model of the fragment parses — with no
+    diagnostic at all — to exactly the block the property demands: identifier, annotations with their
+    options, every parameter with annotations and description, the description, the `Returns:` tag, all
+    with their source lines.  A layout chooses the white space in front of the asterisk SEPARATELY FOR
+    EVERY LINE (uniform, ragged, staircase, tabs and spaces mixed), the white space before the two tokens,
+    the white-space character after the asterisks and LF / CR / CRLF; only the recorded indentation
+    (`indentsFrom L`: each line's own) depends on it. -/
 theorem C10_parse_render_partial (L : Layout) (b : SBlock) (n : Nat) (hL : wfLayout L = true) (hb : wfSBlock b = true) :
     parseBlock (render L (blockImage b n [])) n =
-      .ok (some (blockImage b n (List.replicate (bodyOf b).length L.indent)), []) :=
+      .ok (some (blockImage b n (indentsFrom L 0 (bodyOf b).length)), []) :=
   parseBlock_render L (wfLayout_spec hL) b (wfSBlock_spec hb) n []
 
 /-- the block without the layout-dependent record of the indentation -/
 def eraseIndent (B : BlockM) : BlockM := { B with indentation := [] }
 
-/-- Layout independence: all layouts of one block model parse to the same block (the recorded
-    indentation, which is the layout itself, aside) and to the same (empty) list of diagnostics. -/
+/-- Layout independence ("any indentation in front of the asterisks", line by line): all layouts of one
+    block model parse to the same block (the recorded indentation, which is the layout itself, aside) and
+    to the same (empty) list of diagnostics. -/
 theorem C10_layout_indep_partial (L L' : Layout) (b : SBlock) (n : Nat) (hL : wfLayout L = true)
     (hL' : wfLayout L' = true) (hb : wfSBlock b = true) :
     ∃ B B', parseBlock (render L (blockImage b n [])) n = .ok (some B, []) ∧
@@ -198,28 +202,21 @@ theorem C10_layout_indep_partial (L L' : Layout) (b : SBlock) (n : Nat) (hL : wf
 
 /-- write ∘ parse: writing the parsed block out with the project's own comment writer and parsing that
     again (the comment token ends with the closing `*/`, the writer adds the final line break) gives the
-    same block — exactly the same when the layout used the indentation the writer keeps, otherwise the
-    same apart from the recorded indentation. -/
+    same block; only the recorded indentation follows the writer, which puts the most common indentation
+    of the source in front of every asterisk. -/
 theorem C10_write_parse_partial (L : Layout) (b : SBlock) (n : Nat) (hL : wfLayout L = true) (hb : wfSBlock b = true) :
     ∃ B w B', parseBlock (render L (blockImage b n [])) n = .ok (some B, []) ∧
-      writeBlock B = .ok (w ++ ['\n']) ∧ parseBlock w n = .ok (some B', []) ∧ eraseIndent B' = eraseIndent B ∧
-      ((writerLayout L.indent).indent = L.indent → B' = B) := by
-  have hbody : ∃ k, (bodyOf b).length = k + 1 := ⟨_, rfl⟩
-  obtain ⟨k, hk⟩ := hbody
+      writeBlock B = .ok (w ++ ['\n']) ∧ parseBlock w n = .ok (some B', []) ∧ eraseIndent B' = eraseIndent B := by
   have hLs := wfLayout_spec hL
-  have hws : wsString L.indent = true := by
-    simp only [wfLayout, Bool.and_eq_true] at hL; exact hL.1.1.1.1.2
-  have hWL := writerLayout_wf L.indent hws
-  have hp := C10_parse_render_partial L b n hL hb
-  rw [hk] at hp
-  refine ⟨blockImage b n (List.replicate (k + 1) L.indent),
-    render (writerLayout L.indent) (blockImage b n (List.replicate (k + 1) L.indent)),
-    blockImage b n (List.replicate (k + 1) (writerLayout L.indent).indent), hp,
-    writeBlock_image b n k L.indent, ?_, rfl, ?_⟩
-  · have := parseBlock_render (writerLayout L.indent) hWL b (wfSBlock_spec hb) n (List.replicate (k + 1) L.indent)
-    rw [hk] at this
-    exact this
-  · intro he; rw [he]
+  have hne : indentsFrom L 0 (bodyOf b).length ≠ [] := by
+    have : (bodyOf b).length = ((bodyOf b).length - 1) + 1 := by
+      have : 0 < (bodyOf b).length := by simp [bodyOf]
+      omega
+    rw [this]; simp [indentsFrom]
+  obtain ⟨m, hm, hmem⟩ := mostCommon_mem _ hne
+  have hWL := writerLayout_wf m (indentsFrom_ws L hLs _ 0 m hmem)
+  exact ⟨_, _, _, C10_parse_render_partial L b n hL hb, writeBlock_image b n _ m hm,
+    parseBlock_render (writerLayout m) hWL b (wfSBlock_spec hb) n _, rfl⟩
 
 /-! ### block level: former violations as regressions, and the statement stretched beyond the grammar -/
 
@@ -306,9 +303,23 @@ def exampleBlock : SBlock :=
     desc := [str "Frobnicates the object.", str "See also baz()."],
     returns := some { name := str "returns", anns := [(str "transfer", .list [str "full"])], desc := some (str "a new value") } }
 
-def exampleLayout : Layout := { startIndent := ['\t'], indent := ['\t', ' '], endIndent := ['\t', ' '], sp := ' ', eol := ['\r', '\n'] }
+def exampleLayout : Layout :=
+  { startIndent := ['\t'], indents := [], indent := ['\t', ' '], endIndent := ['\t', ' '], sp := ' ', eol := ['\r', '\n'] }
 
-example : wfSBlock exampleBlock = true ∧ wfLayout exampleLayout = true := by decide +kernel
+/-- a ragged layout of the same block: the tag lines and the parameter lines sit deeper than the identifier line,
+    spaces and tabs mixed (the layout on which seeded change c10-a loses the `Returns:` tag) -/
+def raggedLayout : Layout :=
+  { startIndent := [], indents := [[' '], ['\t'], [' ', ' ', ' '], [' '], [], ['\t', ' '], [' ', ' '], ['\t', '\t']],
+    indent := [' ', ' ', ' ', ' '], endIndent := [' '], sp := ' ', eol := ['\n'] }
+
+example : wfSBlock exampleBlock = true ∧ wfLayout exampleLayout = true ∧ wfLayout raggedLayout = true := by decide +kernel
+
+example : render raggedLayout (blockImage exampleBlock 7 []) =
+    str "/**\n * ACTION_foo_bar: (skip)\n\t* @obj: (in) (transfer none): the object\n   * @n:\n *\n* Frobnicates the object.\n\t * See also baz().\n  *\n\t\t* Returns: (transfer full): a new value\n */" := by
+  decide +kernel
+
+example : (parsedBlock (render raggedLayout (blockImage exampleBlock 7 [])) 7).map eraseIndent =
+    some (eraseIndent (blockImage exampleBlock 7 [])) := by decide +kernel
 
 example : render exampleLayout (blockImage exampleBlock 7 []) =
     str "\t/**\r\n\t * ACTION_foo_bar: (skip)\r\n\t * @obj: (in) (transfer none): the object\r\n\t * @n:\r\n\t *\r\n\t * Frobnicates the object.\r\n\t * See also baz().\r\n\t *\r\n\t * Returns: (transfer full): a new value\r\n\t */" := by
